@@ -6,6 +6,7 @@ import (
 	"fmt"
 	"go/types"
 	"math/big"
+	"os"
 	"strings"
 
 	"golang.org/x/tools/go/ssa"
@@ -237,7 +238,7 @@ func (s *State) assume(t *Term) {
 		// skolemise: introduce the unknown piece as a fresh symbol so that the structure stays visible
 		a, b := t.Args[0], t.Args[1]
 		j := FreshSeq("piece")
-		s.pc = append(s.pc, App("bytes", SBool, j))
+		s.assume(App("bytes", SBool, j))
 		if t.Name == "extends" {
 			s.pc = append(s.pc, Eq(a, Cat(b, j)))
 		} else {
@@ -256,10 +257,17 @@ func (s *State) assume(t *Term) {
 		return
 	}
 	s.pc = append(s.pc, t)
+	if ovfObligations && t.Op == "app" && t.Name == "bytes" && len(t.Args) == 1 {
+		// type invariant of Go: a byte sequence that exists at run time (slice, string, buffer content) has an int length
+		s.pc = append(s.pc, Le(Len(t.Args[0]), BigC(maxInt64)))
+	}
 	if t.Op != "=>" {
 		s.saturate()
 	}
 }
+
+var ovfObligations = os.Getenv("VERIF_NO_OVF") == "" // 64-bit + - * carry a no-overflow obligation (safety runs)
+var maxInt64 = new(big.Int).SetUint64(1<<63 - 1)
 
 func (s *State) allImplied(h *Term) bool {
 	if h.Op == "and" {
